@@ -135,6 +135,7 @@ def generate(seed: int, tier: str = "quick") -> dict:
         max_levels={"any": 8, "thin": 1, "deep": 8}[shape],
         n_instruments=rw.choice([1, 2, 2, 3, 4, 6]),
         basis=R.sub(seed, "basis").random() < 0.5,
+        dense_books=R.sub(seed, "dense").random() < 0.3,
     )
     world["markets"].append(mw)
     faults = []
